@@ -38,6 +38,16 @@ def main():
         elif a == "--tests":
             tests = args.pop(0)
     patch = os.path.join(d, "patch.diff")
+    if tests is None:
+        pk = set()
+        for ln in open(patch):
+            if ln.startswith("+++ b/toqito/"):
+                parts = ln.split()[1].split("/")
+                pkg = "/".join(parts[1:3])
+                one = f"{pkg}/tests/test_{parts[-1]}"
+                slow = parts[2] in ("state_opt", "nonlocal_games", "channel_metrics", "state_metrics")
+                pk.add(one if (slow and os.path.exists(os.path.join(REPO, one))) else pkg + "/tests")
+        tests = " ".join(sorted(pk))
     demo = os.path.join(d, "demo.py")
     out = {"dir": d, "property": pid, "tier": tier}
     rc, o = run("git status --porcelain", cwd=REPO)
